@@ -27,7 +27,7 @@ from mc.core import Acc, rotate
 ID = "C05"
 LEVEL = "model_checking"
 ASSUMPTIONS = [
-    "reference verdict (DESIGN B.3): sat > 0 => FAIL(1); else err > 0 => ERROR(5); else unknown/timeout > 0 => TIMEOUT(2); else a stuck path whose confirmation query is not unsat => ERROR(3); else no successful path => ERROR(4); else PASS(0)",
+    "reference verdict (DESIGN B.3): sat > 0 => FAIL(1); else err > 0 => ERROR(5); else a stuck path whose confirmation query is not unsat => ERROR(3); else unknown/timeout > 0 => TIMEOUT(2); else no successful path => ERROR(4); else PASS(0)",
     "replies are produced in-process (seam: halmos.solve.PopenFuture is replaced in the harness; the process layer itself is C17's subject) and selected per query by a constant that only that path's constraints contain; `sat` replies carry a model; a reply is `err` when its first line is none of sat/unsat/unknown",
     "completion orders are produced by real solver threads: --solver-threads = number of concurrent queries and per-reply delays 0 / 0.1 / 0.2 s in every permutation; verdicts must not depend on them (under --early-exit a valid counterexample may shut the executor down before the others finish: still FAIL)",
     "a `sleep` reply is a job whose time limit expires: the scripted future raises subprocess.TimeoutExpired (no wall clock in the oracle)",
@@ -96,10 +96,11 @@ def reference_verdict(outcomes, default, replies):
         return 1
     if "err" in cls:
         return 5
-    if "unknown" in cls:
-        return 2
+    # the property: "... otherwise the verdict is FAIL, ERROR or TIMEOUT in that precedence": a stuck path is an ERROR and outranks a timeout
     if stuck_open:
         return 3
+    if "unknown" in cls:
+        return 2
     if S == 0:
         return 4
     return 0
